@@ -12,7 +12,7 @@ for cfg in ("pinned", "malloc", "mmap", "ucontext", "debug"):
         for fd in json.load(open(os.path.join(d, u["json"])))["functions"]:
             names.add(fd["name"])
             rel = os.path.relpath(fd["file"], facts.REPO)
-            sigs.setdefault(fd["name"], [rel, fd.get("ret"), [p["t"] for p in fd["params"]], bool(fd.get("static"))])
+            sigs.setdefault(fd["name"], [rel, fd.get("ret"), [p["t"] for p in fd["params"]], bool(fd.get("static")), [p["name"] for p in fd["params"]]])
 out = os.path.join(os.path.dirname(os.path.abspath(__file__)), "..", "lib", "census.json")
 json.dump({"comment": "names of the library functions at the reference tree; see lib/inline.py", "functions": sorted(names), "signatures": sigs}, open(out, "w"), indent=0)
 print(len(names), "functions")
